@@ -463,6 +463,71 @@ func generatedSet(c *ev.Case) {
 			c.Event("loads", 1)
 			c.Event("lookups", len(queries))
 		}
+		// a load that fails part-way (it restates loaded applications and AVPs, then
+		// declares an unsupported data type; or it is a file that is loaded already):
+		// whatever it leaves behind, nothing that resolved before may stop resolving
+		for variant := 0; variant < 2; variant++ {
+			var doc string
+			if variant == 0 {
+				var b strings.Builder
+				b.WriteString(`<?xml version="1.0" encoding="UTF-8"?><diameter>`)
+				for _, app := range c17Apps {
+					fmt.Fprintf(&b, `<application id="%d" name="Again-%d">`, app, app)
+					for code := 100; code <= 104; code++ {
+						fmt.Fprintf(&b, `<avp name="N-%c" code="%d" must="M"><data type="OctetString"/></avp>`, rune('A'+code-100), code)
+					}
+					fmt.Fprintf(&b, `<avp name="N-Bogus" code="199"><data type="NoSuchType"/></avp></application>`)
+				}
+				b.WriteString(`</diameter>`)
+				doc = b.String()
+			} else {
+				doc = files[perm[0]].XML
+			}
+			err := p.Load(bytes.NewReader([]byte(doc)))
+			if variant == 0 && err == nil {
+				c.Fail(ev.Sig{"op": "load"}, []byte(doc), nil, "a dictionary declaring data type NoSuchType was loaded without error")
+				return
+			}
+			for _, qq := range queries {
+				kq := qq
+				kq.name = ""
+				if resolvedCode[kq] {
+					if _, e := p.FindAVPWithVendor(qq.app, qq.code, qq.vendor); e != nil {
+						c.Fail(ev.Sig{"op": "monotonicity", "what": "avp-code-after-failed-load"}, nil, xmls(files), "app %d code %d vendor %d resolved before a Load that failed (%v) and not after (order %v, variant %d)", qq.app, qq.code, qq.vendor, err, perm, variant)
+						return
+					}
+				}
+				kn := q{qq.app, 0, qq.vendor, qq.name}
+				if resolvedName[kn] {
+					if _, e := p.FindAVPWithVendor(qq.app, qq.name, qq.vendor); e != nil {
+						c.Fail(ev.Sig{"op": "monotonicity", "what": "avp-name-after-failed-load"}, nil, xmls(files), "app %d name %s vendor %d resolved before a Load that failed (%v) and not after (order %v, variant %d)", qq.app, qq.name, qq.vendor, err, perm, variant)
+						return
+					}
+				}
+			}
+			for k := range resolvedCmd {
+				if _, e := p.FindCommand(k[0], k[1]); e != nil {
+					c.Fail(ev.Sig{"op": "monotonicity", "what": "command-after-failed-load"}, nil, xmls(files), "command (%d,%d) resolved before a Load that failed (%v) and not after", k[0], k[1], err)
+					return
+				}
+			}
+			for k := range resolvedApp {
+				var app uint32
+				var typ string
+				fmt.Sscanf(k, "%d/%s", &app, &typ)
+				var e error
+				if typ == "-" {
+					_, e = p.App(app)
+				} else {
+					_, e = p.App(app, typ)
+				}
+				if e != nil {
+					c.Fail(ev.Sig{"op": "monotonicity", "what": "application-after-failed-load"}, nil, xmls(files), "application %s resolved before a Load that failed (%v) and not after (order %v, variant %d)", k, err, perm, variant)
+					return
+				}
+			}
+			c.Event("failed_loads", 1)
+		}
 		c.Event("load_orders", 1)
 	}
 	if c.WantSample() {
